@@ -46,6 +46,8 @@ import Restful.Lemmas.TieRequest
 import Restful.Lemmas.TieImpScore
 import Restful.Lemmas.TieImpMatch
 import Restful.Lemmas.TieImpPath
+import Restful.Lemmas.TieImpMedia
+import Restful.Lemmas.TieImpTemplate
 namespace Restful
 namespace Props
 variable (E : ReEnv)
@@ -268,3 +270,6 @@ end Restful
 -- also: Restful.TieImp.T2.webservice_score
 -- also: Restful.TieImp.match_tokens
 -- also: Restful.TieImp.T2.tokenize_path
+-- also: Restful.TieImp.T5.matches_accept
+-- also: Restful.TieImp.T5.matches_content_type
+-- also: Restful.TieImp.template_to_regex
